@@ -2,7 +2,7 @@
    the equivalence theorems Properties/TieC15.v TieC17.v TieC19.v use.  Nothing here mentions a
    generated definition. *)
 From Coq Require Import String ZifyBool.
-From Comdex Require Import Lib.Base Lib.DecArith Lib.GoSem.
+From Comdex Require Import Lib.Base Lib.DecArith Lib.GoSem Proofs.PureFunsLemmas.
 
 (* values of Go's uint64 / int64 *)
 Definition u64 (x : Z) : Prop := 0 <= x < two64.
@@ -225,3 +225,43 @@ Qed.
 
 (* ---------------- (value1, value2, error) results: the second value and the error ---------------- *)
 Definition snd3 (o : option (Z * Z * Z)) : option (Z * Z) := option_map (fun '(_, tok, e) => (tok, e)) o.
+
+(* ---------------- (value, error) results whose value may be a nil Int / Dec ----------------
+   A Go function that returns the literal sdk.Dec{} on some path is regenerated with result type
+   outcome (option Z * Z): None = the nil value.  [res_opt] reads it as the models' outcome Z: a non-nil
+   error is Err, a nil value with a nil error would panic at its first use. *)
+Definition res_opt (o : outcome (option Z * Z)) : outcome Z :=
+  match o with
+  | Ok (Some v, e) => if e =? 0 then Ok v else Err e
+  | Ok (None, e) => if e =? 0 then Panic else Err e
+  | Err _ => Panic | Panic => Panic
+  end.
+
+
+(* the caller's  v, err := f(..); if err != nil { return x, err }  *)
+Lemma res_of_obind : forall A (m : outcome A) (f : A -> outcome (Z * Z)),
+  res_of (obind m f) = match to_option m with Some a => res_of (f a) | None => Panic end.
+Proof. destruct m; reflexivity. Qed.
+
+Lemma res_opt_obind_err : forall (m : outcome (Z * Z)) (x : option Z) (k : Z -> outcome (option Z * Z)),
+  res_opt (obind m (fun '(v, e) => if negb (e =? 0) then Ok (x, e) else k v))
+  = obind (res_of m) (fun v => res_opt (k v)).
+Proof.
+  intros [[v e]| |] x k; cbn [obind res_of]; try reflexivity.
+  destruct (e =? 0) eqn:E; cbn [negb obind]; [reflexivity|]. cbn [res_opt]. rewrite E. destruct x; reflexivity.
+Qed.
+
+Lemma res_opt_obind_err_opt : forall (m : outcome (option Z * Z)) (x : option Z) (k : Z -> outcome (option Z * Z)),
+  res_opt (obind m (fun '(s, e) => if negb (e =? 0) then Ok (x, e) else obind (lift_pan s) k))
+  = obind (res_opt m) (fun v => res_opt (k v)).
+Proof.
+  intros [[[v|] e]| |] x k; cbn [obind res_opt]; try reflexivity;
+    destruct (e =? 0) eqn:E; cbn [negb obind lift_pan res_opt]; try reflexivity; rewrite E; destruct x; reflexivity.
+Qed.
+
+Lemma res_of_pair0 : forall (m : outcome (Z * Z)) o, to_option m = pair0 o -> res_of m = pan_of o.
+Proof.
+  intros [[v e]| |] [w|] H; cbn in H; try discriminate; try reflexivity.
+  inversion H; subst. reflexivity.
+Qed.
+
